@@ -164,7 +164,135 @@ class _EmptyResource:
 class _TextResource:
     def on_post(self, req: Any, resp: Any) -> None:
         resp.content_type = "text/plain"
-        resp.stream = io.BytesIO(b"plain text body " * 20)
+        resp.stream = io.BytesIO(TEXT)
+
+
+class _DataResource:
+    """Arrow content type but the body is set as resp.data (no stream object): the middleware leaves it alone."""
+
+    def on_post(self, req: Any, resp: Any) -> None:
+        resp.content_type = svc.ARROW_CT
+        resp.data = PLAIN
+
+
+TEXT = b"plain text body " * 20
+# kind -> (arrow content type, producer turn owning the body, non-empty, resp.stream is an IOBase)
+MW_KINDS = {"arrow": (True, False, True, True), "empty": (True, False, False, True), "text": (False, False, True, True), "data": (True, False, True, False)}
+
+
+def _plain_body() -> bytes:
+    import pyarrow as pa
+
+    sink = io.BytesIO()
+    with pa.ipc.new_stream(sink, svc.SCH) as w:
+        w.write_batch(pa.RecordBatch.from_pydict({"v": list(range(300))}, schema=svc.SCH))
+    return sink.getvalue()
+
+
+def hdrs(std: str | None, cus: str | None) -> dict[str, str]:
+    h = {"Content-Type": svc.ARROW_CT}
+    if std is not None:
+        h["Accept-Encoding"] = std
+    if cus is not None:
+        h["X-VGI-Accept-Encoding"] = cus
+    return h
+
+
+def middleware_client(cfg: list[int]) -> Any:
+    """The real _CompressionMiddleware (encode_levels keys = cfg) in a minimal Falcon app."""
+    global PLAIN
+    import falcon
+    import falcon.testing
+
+    from vgi_rpc._codec import Encoding
+    from vgi_rpc.http.server._middleware import _CompressionMiddleware
+
+    if PLAIN is None:
+        PLAIN = _plain_body()
+    enc_of = {1: Encoding.ZSTD, 2: Encoding.GZIP, 3: Encoding.IDENTITY}
+    app = falcon.App(middleware=[_CompressionMiddleware({enc_of[c]: (3 if c == 1 else 6) for c in cfg})])
+    app.add_route("/arrow", _ArrowResource())
+    app.add_route("/empty", _EmptyResource())
+    app.add_route("/text", _TextResource())
+    app.add_route("/data", _DataResource())
+    return falcon.testing.TestClient(app)
+
+
+def mw_reference(kind: str) -> bytes:
+    return {"arrow": PLAIN, "empty": b"", "text": TEXT, "data": PLAIN}[kind]  # type: ignore[dict-item]
+
+
+def factory_env(cfg: list[int]) -> tuple[Any, dict[str, tuple[str, bytes]], dict[str, bytes], list[str]]:
+    """The real app of make_wsgi_app for encode set cfg in ([], [2], [1, 2]); request bodies per kind, the reference
+    (uncompressed) response per kind, harness problems."""
+    import falcon.testing
+
+    from harness.rawrpc import read_streams, request_bytes
+    from vgi_rpc.http import make_wsgi_app
+    from vgi_rpc.metadata import CALL_STATE_KEY, STATE_KEY
+
+    old = os.environ.get("VGI_HTTP_DISABLE_ZSTD")
+    try:
+        if cfg == [2]:
+            os.environ["VGI_HTTP_DISABLE_ZSTD"] = "1"
+        else:
+            os.environ.pop("VGI_HTTP_DISABLE_ZSTD", None)
+        srv = svc.make_server()
+        app = make_wsgi_app(srv, prefix="", token_key=b"k" * 32, compression_level=(3 if cfg else None),
+                            enable_landing_page=False, enable_not_found_page=False, enable_describe_page=False)
+    finally:
+        if old is None:
+            os.environ.pop("VGI_HTTP_DISABLE_ZSTD", None)
+        else:
+            os.environ["VGI_HTTP_DISABLE_ZSTD"] = old
+    client = falcon.testing.TestClient(app)
+    problems: list[str] = []
+    f_schema = srv._methods["f"].params_schema
+    p_schema = srv._methods["prod"].params_schema
+    adv = client.simulate_post("/f", body=request_bytes("f", f_schema, {"a": 10}), headers=hdrs(None, None)).headers.get("vgi-supported-encodings")
+    if sorted(x.strip() for x in (adv or "").split(",") if x.strip()) != sorted(NAMES[c] for c in cfg):
+        problems.append(f"factory advertises {adv!r}, expected {[NAMES[c] for c in cfg]}")
+    bodies = {
+        "unary": ("/f", request_bytes("f", f_schema, {"a": 700})),
+        "prod-init": ("/prod/init", request_bytes("prod", p_schema, {"n": 3, "boom": -1})),
+        "ex-init": ("/ex/init", request_bytes("ex", srv._methods["ex"].params_schema, {"k": 2})),
+    }
+
+    def tokens_of(path: str, body: bytes) -> dict[bytes, bytes]:
+        md = read_streams(client.simulate_post(path, body=body, headers=hdrs(None, None)).content)[-1][-1][1]
+        return {k: md[k] for k in (STATE_KEY, CALL_STATE_KEY) if k in md}
+
+    bodies["prod-cont-token"] = ("/prod/exchange", svc.token_request(tokens_of(*bodies["prod-init"])))
+    bodies["prod-cont-finish"] = ("/prod/exchange", svc.token_request(tokens_of("/prod/init", request_bytes("prod", p_schema, {"n": 2, "boom": -1}))))
+    bodies["prod-cont-raise"] = ("/prod/exchange", svc.token_request(tokens_of("/prod/init", request_bytes("prod", p_schema, {"n": 3, "boom": 1}))))
+    bodies["ex-exchange"] = ("/ex/exchange", svc.token_request(tokens_of(*bodies["ex-init"]), svc.SCH, {"v": list(range(200))}))
+    refs = {}
+    for kind, (path, body) in bodies.items():
+        r0 = client.simulate_post(path, body=body, headers=hdrs(None, None))
+        refs[kind] = r0.content
+        if r0.status_code != 200 or body_coding(r0.content) != 0:
+            problems.append(f"reference request for {kind} answered {r0.status_code}")
+    # the continuation kinds really are what they claim: a data batch + continuation token / a data batch and the end
+    shape = {k: [[row for row, _, _ in st] for st in read_streams(refs[k])] for k in ("prod-cont-token", "prod-cont-finish")}
+    if shape != {"prod-cont-token": [[100, 0]], "prod-cont-finish": [[100]]}:
+        problems.append(f"producer continuation turns have shape {shape}")
+    return client, bodies, refs, problems
+
+
+STRUCTURAL = ("prod-init", "ex-init", "prod-cont-token", "prod-cont-raise", "ex-exchange")  # carry fresh tokens / request ids
+
+
+def _shard(n: int) -> int:
+    """case files: few and large (strings travel packed, a case is a handful of numerals)"""
+    return max(500, min(2500, -(-n // 8)))
+
+
+def cpack(s: str) -> str:
+    """str -> one N literal: little-endian base 2^21 digits (code point + 1); M_Negotiate.unpack inverts it"""
+    n = 0
+    for ch in reversed(s):
+        n = n * 2097152 + ord(ch) + 1
+    return f"{n}%N"
 
 
 def translate(ctx: Any) -> None:
@@ -197,58 +325,68 @@ def run(ctx: Any) -> None:
         {
             "P_C19": [
                 "C19_first_producible_in_client_order_vgi_first", "C19_identity_first_or_no_overlap_none",
-                "C19_choice_is_find", "C19_header_matches_negotiation", "C19_header_iff", "C19_response_coding_applied",
+                "C19_choice_is_find", "C19_vgi_header_precedence", "C19_header_matches_negotiation", "C19_response_coding_applied",
                 "C19_decoded_body_same", "C19_parse_is_entries",
             ],
-            "T_Negotiate": ["pick_tie", "enum_tie", "C19_source_first_producible"],
+            "T_Negotiate": ["pick_tie", "enum_tie", "runtime_tie", "levels_tie", "header_names_tie", "precompress_tie",
+                            "C19_source_first_producible", "C19_source_none"],
         },
     )
 
-    import falcon
-    import falcon.testing
-    import pyarrow as pa
-
     from vgi_rpc._codec import Encoding, available_encodings, parse_encoding_list
-    from vgi_rpc.http import make_wsgi_app
-    from vgi_rpc.http.server._middleware import _CompressionMiddleware
     from vgi_rpc.metadata import CALL_STATE_KEY, STATE_KEY
 
     quick = ctx.tier == "quick"
+    OPAQUE = (STATE_KEY, CALL_STATE_KEY, b"vgi_rpc.request_id")
     rng = ctx.rng
     HDR = "From Coq Require Import List NArith Bool.\nFrom VGI Require Import M_Negotiate Corr.\nImport ListNotations.\nOpen Scope N_scope."
 
     # ---- environment facts the string model relies on ---------------------------------------------------
-    ok_env, out = ctx.coq_eval(HDR, "Eval vm_compute in (filter is_space (map N.of_nat (seq 0 70000))).")
+    ok_env, out = ctx.coq_eval(HDR, "Eval vm_compute in (snd (N.iter 12400 (fun p => (fst p + 1, if is_space (fst p) then fst p :: snd p else snd p)) (0, []))).")
     import re as _re
 
     m = _re.search(r"=\s*\[(.*?)\]", out, _re.S)
+    # beyond 12288 the model has no white space (L_Negotiate.is_space_bound)
     model_spaces = {int(x) for x in _re.findall(r"\d+", m.group(1))} if (ok_env and m) else set()
-    runtime_spaces = {c for c in range(0x110000) if chr(c).isspace()}
-    stripped = {c for c in range(0x110000) if ("a" + chr(c)).strip() == "a"}
+    runtime_spaces: set[int] = set()
+    stripped: set[int] = set()
+    bad_lower: list[int] = []
+    # str.lower(): ASCII is the A-Z fold; a non-ASCII code point either stays itself (not a word character, white space
+    # iff the table says so) or lowers to a block without ';' / ',' / white space that contains a non-word character,
+    # so a token holding it can never become one of the coding names -- exactly how the model treats it (kept as is).
+    for c in range(0x110000):
+        ch = chr(c)
+        if ch.isspace():
+            runtime_spaces.add(c)
+        if ("a" + ch).strip() == "a":
+            stripped.add(c)
+        low = ch.lower()
+        if low != ch or c < 128:
+            if c < 128:
+                if low != (chr(c + 32) if 65 <= c <= 90 else ch):
+                    bad_lower.append(c)
+            elif ";" in low or "," in low or any(x.isspace() for x in low) or all(x in WORD_ALPHABET for x in low):
+                bad_lower.append(c)
     ctx.obligation("env:str.strip-whitespace-table", "environment", model_spaces == runtime_spaces == stripped,
                    f"model {sorted(model_spaces ^ runtime_spaces)[:10]} strip {sorted(stripped ^ runtime_spaces)[:10]}")
-    bad_lower = []
-    for c in range(0x110000):
-        low = chr(c).lower()
-        if c < 128:
-            exp = chr(c + 32) if 65 <= c <= 90 else chr(c)
-            if low != exp:
-                bad_lower.append(c)
-        elif low != chr(c) and any((ord(x) < 128 and x != "k") or x.isspace() for x in low):
-            bad_lower.append(c)
     ctx.obligation("env:str.lower-ascii-only-matters", "environment", not bad_lower, f"code points {bad_lower[:10]}")
+    ctx.log("environment facts checked")
     ctx.obligation("env:zstd-available", "environment", tuple(available_encodings()) == (Encoding.ZSTD, Encoding.GZIP), str(available_encodings()))
+
+    probe = ["", "gzip", " ZSTD;q=0 ,\tidentity", "\x00\U0010ffff\xa0", "a" * 80] + UNICODE[:6]
+    okp, outp = ctx.coq_eval(HDR, "Eval vm_compute in (forallb (fun p => list_eqb N.eqb (unpack (fst p)) (snd p)) [" + "; ".join(f"({cpack(x)}, {cstr(x)})" for x in probe) + "]).")
+    ctx.obligation("harness:string-packing", "harness", okp and "= true" in outp, outp[-300:])
 
     # ---- (1) parse_encoding_list ------------------------------------------------------------------------
     strings: list[str] = []
     for n in range(0, 4 if quick else 5):
         for combo in itertools.product(CORE, repeat=n):
             strings.append(",".join(combo))
-    for _ in range(600 if quick else 6000):
+    for _ in range(300 if quick else 6000):
         s = raw_list(rng, WIDE + UNICODE, 4)
         strings.append(s or "")
     strings += UNICODE + WIDE
-    for _ in range(300 if quick else 3000):  # character-level mutations
+    for _ in range(150 if quick else 3000):  # character-level mutations
         s = list(rng.choice(["zstd, gzip", "gzip;q=0.5, identity", "identity,zstd", "ZSTD ,GZIP; q=1", "zstd;q=0,gzip"]))
         for _k in range(rng.randrange(1, 3)):
             pos = rng.randrange(len(s) + 1)
@@ -274,14 +412,15 @@ def run(ctx: Any) -> None:
         # the oracle uses ASCII folding; Python lower() of non-ASCII cannot produce a word (env obligation above)
         if got != exp:
             ctx.violation("parse-not-entry-names", "parse_encoding_list differs from the entries of the header", {"header": s, "parsed": got, "entries": exp})
-        parse_cases.append((cstr(s), clist(cN(c) for c in got)))
+        parse_cases.append((cpack(s), clist(cN(c) for c in got)))
         ctx.count("impl_runs")
-    ok, bad, clog = ctx.coq_mismatches(HDR, "run_parse", "list_eqb N.eqb", parse_cases, "list N", "list N")
+    ctx.log(f"parse: {len(parse_cases)} strings run on the implementation")
+    ok, bad, clog = ctx.coq_mismatches(HDR, "run_parse_packed", "list_eqb N.eqb", parse_cases, "N", "list N", shard=_shard(len(parse_cases)))
     ctx.count("model_cases", len(parse_cases))
     ctx.obligation("correspondence:M_Negotiate.run_parse", "correspondence", ok and not bad, clog if not ok else f"{len(bad)} of {len(parse_cases)} strings disagree")
     for i in bad[:3]:
         ctx.violation("model-impl-disagree-parse", "parse_encoding_list and the model parse differently",
-                      {"header": strings[i], "impl": [e.value for e in parse_encoding_list(strings[i])], "model": ctx.coq_show(HDR, f"run_parse {parse_cases[i][0]}")})
+                      {"header": strings[i], "impl": [e.value for e in parse_encoding_list(strings[i])], "model": ctx.coq_show(HDR, f"run_parse_packed {parse_cases[i][0]}")})
 
     # ---- (2)+(3) responses --------------------------------------------------------------------------------
     model_cases: list[tuple[str, str]] = []
@@ -291,7 +430,7 @@ def run(ctx: Any) -> None:
                 "distinct by (app, cfg, headers, kind); non-trivial = at least one header names a coding")
 
     def check_case(app_name: str, cfg_codes: list[int], levels: set[str], std: str | None, cus: str | None, kind: str,
-                   r: Any, reference: bytes | None, flags: tuple[bool, bool, bool], structural: bool = False) -> None:
+                   r: Any, reference: bytes | None, flags: tuple[bool, bool, bool, bool], structural: bool = False) -> None:
         hk, he, bc, problems = _observe(r)
         repl = {"app": app_name, "encode_set": sorted(levels), "cfg": cfg_codes, "Accept-Encoding": std, "X-VGI-Accept-Encoding": cus,
                 "kind": kind, "status": r.status_code, "headers": {k: v for k, v in r.headers.items() if "ncoding" in k.lower()}}
@@ -310,14 +449,14 @@ def run(ctx: Any) -> None:
         if reference is not None:
             try:
                 dec = decode(NAMES[he], r.content) if hk and he in (1, 2) else r.content
-                same = (svc.canon_streams(dec, (STATE_KEY, CALL_STATE_KEY)) == svc.canon_streams(reference, (STATE_KEY, CALL_STATE_KEY))) if structural else dec == reference
+                same = (svc.canon_streams(dec, OPAQUE) == svc.canon_streams(reference, OPAQUE)) if structural else dec == reference
             except Exception as e:  # noqa: BLE001
                 same = False
                 repl = {**repl, "decode_error": f"{type(e).__name__}: {e}"}
             if not same:
                 ctx.violation("decoded-body-differs", "the decoded body is not the body of the uncompressed response", repl)
-        arrow, owns, nonempty = flags
-        if arrow and nonempty:
+        arrow, owns, nonempty, iobase = flags
+        if arrow and nonempty and iobase:
             want = spec_choice(levels, std, cus)
             ctx.tally("spec_choice", want or "none")
             got = NAMES.get(he) if hk else None
@@ -329,131 +468,58 @@ def run(ctx: Any) -> None:
                     ctx.violation("announced-on-vgi-header-not-offered-there", "X-VGI-Content-Encoding used but the coding was not offered in X-VGI-Accept-Encoding", repl)
                 if hk == 1 and got not in spec_names(std):
                     ctx.violation("announced-on-standard-header-not-offered-there", "Content-Encoding used but the coding was not offered in Accept-Encoding", repl)
-        inp = f"({clist(cN(c) for c in cfg_codes)}, {copt(None if std is None else cstr(std))}, {copt(None if cus is None else cstr(cus))}, ({cbool(arrow)}, {cbool(owns)}, {cbool(nonempty)}))"
+        inp = f"({clist(cN(c) for c in cfg_codes)}, {copt(None if std is None else cpack(std))}, {copt(None if cus is None else cpack(cus))}, ({cbool(arrow)}, {cbool(owns)}, {cbool(nonempty)}, {cbool(iobase)}))"
         model_cases.append((inp, f"({cN(hk)}, {cN(he)}, {cN(bc)})"))
         replays.append(repl)
 
-    def hdrs(std: str | None, cus: str | None) -> dict[str, str]:
-        h = {"Content-Type": svc.ARROW_CT}
-        if std is not None:
-            h["Accept-Encoding"] = std
-        if cus is not None:
-            h["X-VGI-Accept-Encoding"] = cus
-        return h
-
-    srv = svc.make_server()
-    sink = io.BytesIO()
-    with pa.ipc.new_stream(sink, svc.SCH) as w:
-        w.write_batch(pa.RecordBatch.from_pydict({"v": list(range(300))}, schema=svc.SCH))
-    PLAIN = sink.getvalue()
-
+    PLAIN = _plain_body()
     lists = dedup_lists()
     pairs = [(s, c) for s in lists for c in lists]
     latin_wide = [t for t in WIDE] + ["\xa0gzip\xa0", "g\xa0zip", "\x85identity", "gzip\xa0;q=1", "\xdfzstd"]
 
     # (2) minimal app, every encode_levels key set (identity as a key is dropped by the runtime filter)
     cfgs = [list(c) for n in range(4) for c in itertools.combinations((1, 2, 3), n)]
-    enc_of = {1: Encoding.ZSTD, 2: Encoding.GZIP, 3: Encoding.IDENTITY}
     for cfg in cfgs:
-        mw = _CompressionMiddleware({enc_of[c]: (3 if c == 1 else 6) for c in cfg})
-        app = falcon.App(middleware=[mw])
-        app.add_route("/arrow", _ArrowResource())
-        app.add_route("/empty", _EmptyResource())
-        app.add_route("/text", _TextResource())
-        client = falcon.testing.TestClient(app)
+        client = middleware_client(cfg)
         levels = {NAMES[c] for c in cfg if c in (1, 2)}
-        for sl, cl in pairs:
+        for sl, cl in (pairs if (3 not in cfg or not quick) else rng.sample(pairs, 64)):
             std, cus = decorate(rng, sl), decorate(rng, cl)
             r = client.simulate_post("/arrow", headers=hdrs(std, cus))
-            check_case("middleware", cfg, levels, std, cus, "arrow", r, PLAIN, (True, False, True))
-        for _ in range(250 if quick else 4000):
+            check_case("middleware", cfg, levels, std, cus, "arrow", r, PLAIN, MW_KINDS["arrow"])
+        for _ in range(60 if quick else 1500):
             std, cus = raw_list(rng, latin_wide), raw_list(rng, latin_wide)
-            kind = rng.choice(["arrow", "arrow", "arrow", "empty", "text"])
+            kind = rng.choice(["arrow", "arrow", "arrow", "empty", "text", "data"])
             r = client.simulate_post("/" + kind, headers=hdrs(std, cus))
-            ref = {"arrow": PLAIN, "empty": b"", "text": b"plain text body " * 20}[kind]
-            check_case("middleware", cfg, levels, std, cus, kind, r, ref, (kind != "text", False, kind != "empty"))
+            check_case("middleware", cfg, levels, std, cus, kind, r, mw_reference(kind), MW_KINDS[kind])
     if not quick:
-        # exhaustive raw lists of length <= 2 over a 9-token alphabet for both headers, zstd+gzip and gzip-only servers
+        # exhaustive raw lists of length <= 2 over a 9-token alphabet for both headers
         small = ["zstd", "gzip", "identity", "br", "GZIP;q=0", " Identity ", "", "*", "zstd;q=0.5"]
         raws = [None] + [",".join(c) for n in range(1, 3) for c in itertools.product(small, repeat=n)]
         for cfg in ([1, 2], [2], [1]):
-            mw = _CompressionMiddleware({enc_of[c]: 3 for c in cfg})
-            app = falcon.App(middleware=[mw])
-            app.add_route("/arrow", _ArrowResource())
-            client = falcon.testing.TestClient(app)
+            client = middleware_client(cfg)
             for std in raws:
                 for cus in raws:
                     r = client.simulate_post("/arrow", headers=hdrs(std, cus))
-                    check_case("middleware", cfg, {NAMES[c] for c in cfg}, std, cus, "arrow", r, PLAIN, (True, False, True))
+                    check_case("middleware", cfg, {NAMES[c] for c in cfg}, std, cus, "arrow", r, PLAIN, MW_KINDS["arrow"])
 
+    ctx.log(f"middleware app: {len(model_cases)} cases")
     # (3) the real app built by the factory: encode sets {}, {gzip}, {zstd, gzip}
-    f_schema = srv._methods["f"].params_schema
-    from harness.rawrpc import read_streams, request_bytes
-
-    def factory(cfg: list[int]) -> Any:
-        old = os.environ.get("VGI_HTTP_DISABLE_ZSTD")
-        try:
-            if cfg == [2]:
-                os.environ["VGI_HTTP_DISABLE_ZSTD"] = "1"
-            else:
-                os.environ.pop("VGI_HTTP_DISABLE_ZSTD", None)
-            return make_wsgi_app(svc.make_server(), prefix="", token_key=b"k" * 32, compression_level=(3 if cfg else None),
-                                 enable_landing_page=False, enable_not_found_page=False, enable_describe_page=False)
-        finally:
-            if old is None:
-                os.environ.pop("VGI_HTTP_DISABLE_ZSTD", None)
-            else:
-                os.environ["VGI_HTTP_DISABLE_ZSTD"] = old
-
     for cfg in ([], [2], [1, 2]):
-        app = factory(cfg)
-        client = falcon.testing.TestClient(app)
+        client, bodies, refs, problems = factory_env(cfg)
         levels = {NAMES[c] for c in cfg}
-        adv = client.simulate_post("/f", body=request_bytes("f", f_schema, {"a": 10}), headers=hdrs(None, None)).headers.get("vgi-supported-encodings")
-        if sorted(x.strip() for x in (adv or "").split(",") if x.strip()) != sorted(levels):
-            ctx.obligation("harness:factory-encode-set", "harness", False, f"factory advertises {adv!r}, expected {sorted(levels)}")
-        bodies = {
-            "unary": ("/f", request_bytes("f", f_schema, {"a": 700})),
-            "prod-init": ("/prod/init", request_bytes("prod", srv._methods["prod"].params_schema, {"n": 3, "boom": -1})),
-            "ex-init": ("/ex/init", request_bytes("ex", srv._methods["ex"].params_schema, {"k": 2})),
-        }
-        # tokens for the continuation kinds
-        def tokens_of(resp_bytes: bytes) -> dict[bytes, bytes]:
-            md = read_streams(resp_bytes)[-1][-1][1]
-            return {k: md[k] for k in (STATE_KEY, CALL_STATE_KEY) if k in md}
-
-        t_prod3 = tokens_of(client.simulate_post(bodies["prod-init"][0], body=bodies["prod-init"][1], headers=hdrs(None, None)).content)
-        t_prod2 = tokens_of(client.simulate_post("/prod/init", body=request_bytes("prod", srv._methods["prod"].params_schema, {"n": 2, "boom": -1}), headers=hdrs(None, None)).content)
-        t_boom = tokens_of(client.simulate_post("/prod/init", body=request_bytes("prod", srv._methods["prod"].params_schema, {"n": 3, "boom": 1}), headers=hdrs(None, None)).content)
-        t_ex = tokens_of(client.simulate_post(bodies["ex-init"][0], body=bodies["ex-init"][1], headers=hdrs(None, None)).content)
-        bodies["prod-cont-token"] = ("/prod/exchange", svc.token_request(t_prod3))
-        bodies["prod-cont-finish"] = ("/prod/exchange", svc.token_request(t_prod2))
-        bodies["prod-cont-raise"] = ("/prod/exchange", svc.token_request(t_boom))
-        bodies["ex-exchange"] = ("/ex/exchange", svc.token_request(t_ex, svc.SCH, {"v": list(range(200))}))
-        refs = {}
-        for kind, (path, body) in bodies.items():
-            r0 = client.simulate_post(path, body=body, headers=hdrs(None, None))
-            refs[kind] = r0.content
-            if r0.status_code != 200 or body_coding(r0.content) != 0:
-                ctx.obligation(f"harness:reference-{kind}", "harness", False, f"reference request answered {r0.status_code}")
-        # the continuation kinds really are what they claim
-        shape = {k: [[row for row, _, _ in s] for s in read_streams(refs[k])] for k in refs}
-        expect = {"prod-cont-token": [[100, 0]], "prod-cont-finish": [[100]]}
-        for k, v in expect.items():
-            if shape[k] != v:
-                ctx.obligation(f"harness:shape-{k}", "harness", False, f"{shape[k]} != {v}")
+        ctx.obligation(f"harness:factory-app-{'+'.join(sorted(levels)) or 'none'}", "harness", not problems, "; ".join(problems))
         for kind, (path, body) in bodies.items():
             owns = kind.startswith("prod-cont")
-            structural = kind in ("prod-init", "ex-init", "prod-cont-token", "prod-cont-raise", "ex-exchange")
-            these = pairs if (owns or not quick) else rng.sample(pairs, 48)
+            full = (kind in ("prod-cont-token", "prod-cont-finish") and cfg) or not quick
+            these = pairs if full else rng.sample(pairs, 32 if not owns else 48)
             for sl, cl in these:
                 std, cus = decorate(rng, sl), decorate(rng, cl)
                 r = client.simulate_post(path, body=body, headers=hdrs(std, cus))
-                check_case("factory", cfg, levels, std, cus, kind, r, refs[kind], (True, owns, True), structural)
-            for _ in range(40 if quick else 600):
+                check_case("factory", cfg, levels, std, cus, kind, r, refs[kind], (True, owns, True, True), kind in STRUCTURAL)
+            for _ in range(20 if quick else 400):
                 std, cus = raw_list(rng, latin_wide), raw_list(rng, latin_wide)
                 r = client.simulate_post(path, body=body, headers=hdrs(std, cus))
-                check_case("factory", cfg, levels, std, cus, kind, r, refs[kind], (True, owns, True), structural)
+                check_case("factory", cfg, levels, std, cus, kind, r, refs[kind], (True, owns, True, True), kind in STRUCTURAL)
         # observable of the pre-compressed path: a zstd frame written by Arrow's stream codec declares no content size
         if 1 in cfg:
             import zstandard
@@ -464,17 +530,18 @@ def run(ctx: Any) -> None:
                 size = zstandard.get_frame_parameters(r.content).content_size
                 ctx.tally("producer-zstd-frame", "streaming (pre-compressed)" if size in (-1, 2**64 - 1) else "sized (middleware)")
 
+    ctx.log(f"factory app done: {len(model_cases)} cases in total")
     ctx.sample({"encode_set": ["gzip", "zstd"], "Accept-Encoding": "deflate, gzip, br, zstd", "X-VGI-Accept-Encoding": "zstd, gzip", "expected": "Content-Encoding: zstd"})
     ctx.sample({"encode_set": ["gzip"], "Accept-Encoding": "identity, gzip", "X-VGI-Accept-Encoding": "zstd", "expected": "no coding"})
     ctx.sample({"encode_set": ["gzip", "zstd"], "Accept-Encoding": None, "X-VGI-Accept-Encoding": "GZIP;q=0", "expected": "X-VGI-Content-Encoding: gzip"})
 
-    ok, bad, clog = ctx.coq_mismatches(HDR, "run_case", "fun a b => N.eqb (fst (fst a)) (fst (fst b)) && N.eqb (snd (fst a)) (snd (fst b)) && N.eqb (snd a) (snd b)",
-                                       model_cases, "list N * option (list N) * option (list N) * (bool * bool * bool)", "N * N * N")
+    ok, bad, clog = ctx.coq_mismatches(HDR, "run_case_packed", "fun a b => N.eqb (fst (fst a)) (fst (fst b)) && N.eqb (snd (fst a)) (snd (fst b)) && N.eqb (snd a) (snd b)",
+                                       model_cases, "list N * option N * option N * (bool * bool * bool * bool)", "N * N * N", shard=_shard(len(model_cases)))
     ctx.count("model_cases", len(model_cases))
     ctx.obligation("correspondence:M_Negotiate.run_case", "correspondence", ok and not bad, clog if not ok else f"{len(bad)} of {len(model_cases)} cases disagree")
     for i in bad[:5]:
         ctx.violation("model-impl-disagree", "implementation and model respond differently",
-                      {**replays[i], "impl(hk,he,bc)": model_cases[i][1], "model": ctx.coq_show(HDR, f"run_case {model_cases[i][0]}")})
+                      {**replays[i], "impl(hk,he,bc)": model_cases[i][1], "model": ctx.coq_show(HDR, f"run_case_packed {model_cases[i][0]}")})
     ctx.exhaustive = False
     ctx.assumptions += [
         "zstd / gzip decompress(compress(b)) = b for the middleware's compressors and for pyarrow.CompressedOutputStream (Section hypotheses of C19_decoded_body_same; exercised on every case by decoding the real bodies)",
@@ -483,3 +550,49 @@ def run(ctx: Any) -> None:
         "header values reach the middleware as req.get_header gives them (WSGI latin-1); absent and empty header are the same (`or \"\"`)",
         "q-values are not preferences: textual order decides and q=0 entries still count as offered (reading adopted from the code)",
     ]
+
+
+def replay(ctx: Any, path: str) -> int:
+    """Re-run one recorded case against the tree under test; exit 1 iff the recorded violation key shows again."""
+    import json
+
+    from vgi_rpc._codec import parse_encoding_list
+    from vgi_rpc.metadata import CALL_STATE_KEY, STATE_KEY
+
+    rec = json.loads(open(path).read())
+    rp, key = rec.get("replay", {}), rec.get("key")
+    if "header" in rp and "app" not in rp:
+        got = [e.value for e in parse_encoding_list(rp["header"])]
+        exp: list[str] = []
+        for n in spec_names(rp["header"]):
+            if n in CODES and n not in exp:
+                exp.append(n)
+        print(f"parse_encoding_list({rp['header']!r}) = {got}; entries say {exp}")
+        return int(got != exp)
+    cfg, std, cus, kind = rp["cfg"], rp.get("Accept-Encoding"), rp.get("X-VGI-Accept-Encoding"), rp["kind"]
+    levels = {NAMES[c] for c in cfg if c in (1, 2)}
+    if rp["app"] == "middleware":
+        client = middleware_client(cfg)
+        r = client.simulate_post("/" + kind, headers=hdrs(std, cus))
+        ref, flags, structural = mw_reference(kind), MW_KINDS[kind], False
+    else:
+        client, bodies, refs, problems = factory_env(cfg)
+        r = client.simulate_post(bodies[kind][0], body=bodies[kind][1], headers=hdrs(std, cus))
+        ref, flags, structural = refs[kind], (True, kind.startswith("prod-cont"), True, True), kind in STRUCTURAL
+    hk, he, bc, problems2 = _observe(r)
+    want = spec_choice(levels, std, cus)
+    got = NAMES.get(he) if hk else None
+    opaque = (STATE_KEY, CALL_STATE_KEY, b"vgi_rpc.request_id")
+    try:
+        dec = decode(NAMES[he], r.content) if hk and he in (1, 2) else r.content
+        same = (svc.canon_streams(dec, opaque) == svc.canon_streams(ref, opaque)) if structural else dec == ref
+    except Exception as e:  # noqa: BLE001
+        same = False
+        print(f"decode failed: {type(e).__name__}: {e}")
+    hdr_ok = got is None or (hk == 2 and got in spec_names(cus)) or (hk == 1 and got in spec_names(std))
+    applies = flags[0] and flags[2] and flags[3]
+    print(f"key={key} encode_set={sorted(levels)} Accept-Encoding={std!r} X-VGI-Accept-Encoding={cus!r} kind={kind}")
+    print(f"  announced: {['none', 'Content-Encoding', 'X-VGI-Content-Encoding'][hk]} {got!r}; body bytes coding {bc}; first producible entry {want!r}; "
+          f"decoded body identical: {same}; header offered there: {hdr_ok}")
+    bad = bool(problems2) or not same or (he if hk else 0) != bc or (applies and (got != want or not hdr_ok))
+    return int(bad)
